@@ -3,6 +3,7 @@ CONSTANTS
   PtrRule = "decreasing"
   CharStrGuard = TRUE
   Alphabet = {0, 1, 2, 64, 192}
+  EmitMax = 3
   MaxLen = 4
-INVARIANTS NoPanic NoHang InsideRdata AgreesWithOracle
+INVARIANTS EmitCase NoPanic NoHang InsideRdata AgreesWithOracle
 CHECK_DEADLOCK FALSE
